@@ -52,6 +52,12 @@ BY_CHECK = {
         "TLX.OnCode.C10.exported_ports",
         "TLX.OnCode.C10.exported_ports_quic",
     ]),
+    "C01": ("TLX.Props.OnCode.C01", [
+        "TLX.OnCode.C01.decrypt_tls13_aead_unprotect_protect",
+        "TLX.OnCode.C01.decrypt_tls13_stream_cipher_unprotect_protect",
+        "TLX.OnCode.C01.decrypt_tls12_aead_unprotect_protect",
+        "TLX.OnCode.C01.decrypt_tls12_chacha20_unprotect_protect",
+    ]),
     "C14": ("TLX.Props.OnCode.C14", [
         "TLX.OnCode.C14.split_cipher_suite_sound_complete",
         "TLX.OnCode.C14.cipher_suites_keys",
